@@ -66,7 +66,7 @@ Qed.
 Lemma resize1_length m d (c : R) cast arr n_out off r :
   resize1 m d c cast arr n_out off = Ok r -> length r = n_out.
 Proof.
-  unfold resize1.
+  unfold resize1. destruct (offset_invalid _ _ _); [discriminate|]. unfold resize1_core.
   match goal with |- (if ?b then _ else _) = _ -> _ => destruct b; [discriminate|] end.
   match goal with |- (if ?b then _ else _) = _ -> _ => destruct b; [discriminate|] end.
   cbv zeta. match goal with |- context [repeat ?f n_out] => set (fillv := f) end.
